@@ -439,7 +439,11 @@ class SymX:
 
     # ---- numpy unary ufunc hooks for object arrays
     def sqrt(self):
-        if bool(mkbool(self.t < 0)):
+        neg = mkbool(self.t < 0)
+        if neg is not False and getattr(_CTX, 'assume_nonzero_divisors', False):
+            _CTX._fact(self.t >= 0)      # harness-level domain assumption, see _div
+            return _CTX.uf_sqrt(self)
+        if bool(neg):
             return NAN
         return _CTX.uf_sqrt(self)
 
@@ -531,7 +535,14 @@ def token_for(v):
 def _div(a, b):
     """a / b for finite a, b (SymX) following numpy float semantics for b == 0."""
     bz = mkbool(b.t == 0)
-    if bz is False or not bool(bz):
+    if bz is False:
+        return SymX(a.t / b.t)
+    if _CTX is not None and getattr(_CTX, 'assume_nonzero_divisors', False):
+        # harness-level assumption "no division by zero on this run" (stated in the harness' assumptions):
+        # recorded as a fact instead of a (possibly hard non-linear) feasibility question per division
+        _CTX._fact(b.t != 0)
+        return SymX(a.t / b.t)
+    if not bool(bz):
         return SymX(a.t / b.t)
     # b == 0 on this path
     s = a._sign()
@@ -844,6 +855,62 @@ class Dec:
         return (self.d, self.payload)
 
 
+class _NotRational(Exception):
+    pass
+
+
+def _ratfun(t):
+    """z3 real term built from + - * / numerals and constants -> (numerator, denominator) polynomial terms."""
+    if z3.is_rational_value(t) or z3.is_int_value(t):
+        return t, z3.RealVal(1)
+    if z3.is_const(t):
+        return t, z3.RealVal(1)
+    k = t.decl().kind()
+    ch = t.children()
+    if k == z3.Z3_OP_ADD:
+        n, d = _ratfun(ch[0])
+        for c in ch[1:]:
+            n2, d2 = _ratfun(c)
+            if d.eq(d2):
+                n = n + n2
+            else:
+                n, d = n * d2 + n2 * d, d * d2
+        return n, d
+    if k == z3.Z3_OP_SUB:
+        n, d = _ratfun(ch[0])
+        for c in ch[1:]:
+            n2, d2 = _ratfun(c)
+            if d.eq(d2):
+                n = n - n2
+            else:
+                n, d = n * d2 - n2 * d, d * d2
+        return n, d
+    if k == z3.Z3_OP_UMINUS:
+        n, d = _ratfun(ch[0])
+        return -n, d
+    if k == z3.Z3_OP_MUL:
+        n, d = _ratfun(ch[0])
+        for c in ch[1:]:
+            n2, d2 = _ratfun(c)
+            n, d = n * n2, d * d2
+        return n, d
+    if k == z3.Z3_OP_DIV:
+        n, d = _ratfun(ch[0])
+        n2, d2 = _ratfun(ch[1])
+        return n * d2, d * n2
+    if k == z3.Z3_OP_POWER and z3.is_int_value(ch[1]) or (k == z3.Z3_OP_POWER and z3.is_rational_value(ch[1]) and ch[1].denominator_as_long() == 1):
+        e = ch[1].numerator_as_long() if z3.is_rational_value(ch[1]) else ch[1].as_long()
+        n, d = _ratfun(ch[0])
+        if e >= 0:
+            rn, rd = z3.RealVal(1), z3.RealVal(1)
+            for _ in range(e):
+                rn, rd = rn * n, rd * d
+            return rn, rd
+    if k == z3.Z3_OP_TO_REAL:
+        return t, z3.RealVal(1)
+    raise _NotRational(str(t.decl()))
+
+
 class SymCtx:
     """One symbolic exploration context (one process)."""
     symbolic = True
@@ -887,6 +954,7 @@ class SymCtx:
         self.solver.set('timeout', self.branch_timeout_ms)
         self.cex = None
         self.tables = {}
+        self.assume_nonzero_divisors = False
         del TOKENS[:]
 
     # ---- solver plumbing
@@ -1313,6 +1381,18 @@ class SymCtx:
                 r = z3.unknown
         if r == z3.unknown:
             r = s.check()
+        if r == z3.unknown:
+            # undecided: look for a counterexample at "generic position" values of the real inputs (the query
+            # becomes ground / linear); a hit is a genuine model of pc and not(claim), a miss leaves `unknown`
+            reals = [c for n_, c in self.inputs.items() if self.input_kinds.get(n_) == 'real']
+            for scale in (1, 7, 3):
+                s.push()
+                s.add(*[c == z3.RealVal(str(Fraction((i * 37) % 11 * scale + i + 1, 1 + (i % 3)))) for i, c in enumerate(reals)])
+                r2 = s.check()
+                if r2 == z3.sat:
+                    r = z3.sat
+                    break
+                s.pop()
         dt = time.time() - t0
         self.solver_s += dt
         if r == z3.unsat:
@@ -1361,12 +1441,48 @@ class SymCtx:
         out['#uf'] = tabs
         return out
 
+    def sqrt_arg(self, r):
+        """The term whose non-negative square root the constant r was introduced for (r*r if r is none)."""
+        if isinstance(r, SymX):
+            for a, ra in self.uf_apps.get('SQRT', []):
+                if ra.eq(r.t):
+                    return SymX(a)
+        return r * r
+
+    def claim_poly(self, name, lhs, rhs):
+        """lhs == rhs as an identity of rational functions: both sides are brought to numerator/denominator form,
+        cross-multiplied (denominators are non-zero by the run's stated domain assumption) and the difference is
+        expanded by z3's sum-of-monomials normaliser; the identically-zero polynomial decides it.  Falls back to
+        an ordinary solver query when the normal form is not 0 (then a counterexample is searched)."""
+        t0 = time.time()
+        try:
+            nl, dl = _ratfun(_simp(rterm(lhs)))
+            nr, dr = _ratfun(_simp(rterm(rhs)))
+            d = z3.simplify(nl * dr - nr * dl, som=True, som_blowup=10000000)
+            self.n_claim_queries += 1
+            if z3.is_rational_value(d) and d.numerator_as_long() == 0:
+                self.claims.append((name, 'unsat', round(time.time() - t0, 4)))
+                self.solver_s += time.time() - t0
+                return True
+        except _NotRational:
+            pass
+        return self.claim(name, SymX(rterm(lhs)) == SymX(rterm(rhs)))
+
     def path_model(self):
         """A model of the current path condition (for shadow validation)."""
         s = z3.Solver()
         s.set('random_seed', self.seed)
-        s.set('rlimit', self.rlimit_claim)
+        s.set('timeout', 10000)
         s.add(*self.pc)
+        # first try a "generic position" assignment of the real inputs (turns non-linear conditions into ground ones)
+        reals = [c for n_, c in self.inputs.items() if self.input_kinds.get(n_) == 'real']
+        for scale in (1, 7):
+            s.push()
+            s.add(*[c == z3.RealVal(str(Fraction((i * 37) % 11 * scale + i + 1, 1 + (i % 3)))) for i, c in enumerate(reals)])
+            if s.check() == z3.sat:
+                m = s.model()
+                return self._extract(m), m
+            s.pop()
         if s.check() != z3.sat:
             return None
         return self._extract(s.model()), s.model()
@@ -1482,6 +1598,12 @@ class ConcreteCtx:
 
     def note(self, s):
         self.notes.append(s)
+
+    def claim_poly(self, name, lhs, rhs):
+        return self.claim(name, close(lhs, rhs, 1e-6, 1e-9))
+
+    def sqrt_arg(self, r):
+        return r * r
 
     def claim(self, name, c, abstract=None, hyps=()):
         if isinstance(c, (list, tuple)):
